@@ -341,6 +341,36 @@ func execCall(w *World, c Call) (res string, uuid string) {
 		w.Cfg.Cache = c.V%2 == 1
 		w.Cfg.Async = []int{0, 1, 2}[c.V/2]
 		return cls(db.Create(&Rec{}, w.Cfg.Schema(&Rec{}))), ""
+	case "orbad", "andbad":
+		// a refinement that fails: unknown operator, unknown field, mistyped value
+		bad := [][3]interface{}{{"A", "<>", int(1)}, {"Nope", "=", int(1)}, {"A", "=", "x"}}[c.V%3]
+		s0 := db.Search(&Rec{}, "A", ">=", int(-3))
+		var s1 *sod.Search
+		if c.Name == "orbad" {
+			s1 = s0.Or(bad[0].(string), bad[1].(string), bad[2])
+		} else {
+			s1 = s0.And(bad[0].(string), bad[1].(string), bad[2])
+		}
+		_, err := s1.Collect()
+		if err != nil {
+			return "err", ""
+		}
+		return "ok", ""
+	case "searchbad":
+		_, err := db.Search(&Rec{}, "P", "<>", int(1)).Collect()
+		if err != nil {
+			return "err", ""
+		}
+		return "ok", ""
+	case "insbad":
+		r := NewRec(c.V, c.K)
+		r.P = InvalidP
+		return cls(db.InsertOrUpdate(r)), ""
+	case "getabsent":
+		r := &Rec{}
+		r.Initialize(NeverUUID)
+		_, err := db.Get(r)
+		return cls(err), ""
 	case "drop":
 		return cls(db.Drop()), ""
 	case "flushandcommit":
